@@ -1645,6 +1645,11 @@ impl Matcher {
 
                                 trace!("got change id: {change_id}");
 
+                                // before the event can reach any subscriber: a client attaching
+                                // right now compares this with what its catch-up read returned to
+                                // find out whether events were handed out that it did not get
+                                _ = self.last_change_tx.send(change_id);
+
                                 if !skip_send
                                     && let Err(e) = self.evt_tx.blocking_send(QueryEvent::Change(
                                         change_type,
@@ -1658,7 +1663,6 @@ impl Matcher {
                                 }
                                 #[cfg(feature = "verif")]
                                 crate::verif::gate_blocking("matcher-after-event");
-                                _ = self.last_change_tx.send(change_id);
                             }
                             Err(e) => {
                                 error!("could not deserialize row's cells: {e}");
